@@ -74,6 +74,8 @@ def axes(tier, seed, neardeg=True):
 def theta_alphabet(tier, seed, upto_pi=True):
     """rotation magnitudes in [0, pi]: ladders at 0 (above) and pi (below) + generic"""
     out = ladder(0.0, '0', tier, sides=(+1,))
+    # the library's zero thresholds are 10 eps (iszerovec) and 100 eps (unitvec): letters between and around them
+    out += [('0+3e-15', 3e-15), ('0+1e-14', 1e-14), ('0+3e-14', 3e-14)] if tier == 'quick' else [('0+3e-15', 3e-15), ('0+3e-14', 3e-14)]
     out += [(n, abs(v)) for n, v in pick(G_ANGLES_SMALL, tier, seed, 3)]
     out.append(('pi/2', PI / 2))
     if upto_pi:
